@@ -3,6 +3,9 @@
 (* documented layout of the two certificate blocks, and a small state machine of the operations the  *)
 (* property talks about:                                                                             *)
 (*   Compute(rot, keys, encs, path, used)        one tool path computes the RoT value                *)
+(*   ComputeFor(fam, rev, case)                  an entry point that is given a DEVICE (family and    *)
+(*                                               silicon revision) computes the value of the RoT type *)
+(*                                               that device has (Devices: rot type per revision)     *)
 (*   WriteFile / ReadByPath                      key files are (re)written, tools read them by path  *)
 (*   Build21 / Export21 / Parse21 / SetUserData / SetConstraints     certificate block v2.1          *)
 (*   Build1  / Export1  / Parse1  / SetImageLength                   certificate block v1            *)
@@ -18,8 +21,11 @@
 (*   srk_table_ahab_v2: SHA-512 over the SRK table (version 43) whose records carry the hash         *)
 (*                  (by curve, zero padded to 64 bytes) of the SRK data block of that key             *)
 EXTENDS Sym, FiniteSets, TLC
-CONSTANT SigCache      \* FALSE = the property (a signature always covers what is exported).  TRUE = I-spec of the code
+CONSTANT SigCache,     \* FALSE = the property (a signature always covers what is exported).  TRUE = I-spec of the code
                        \* as built ("sign only if there is no signature yet"), used by RotMC_asbuilt.cfg to PREDICT.
+         Devices       \* the silicon: sequence of [fam, revs, rots, latest, pfr, dc] - the revisions of a family (revs[j]) and the
+                       \* RoT type each of them HAS (rots[j]; frozen table anchors/C03/rot_types_rev.json), the revision the name
+                       \* "latest" stands for, and whether the family has a CMPA page / a debug-credential path
 VARIABLES fs,          \* key files: slot -> [has, k, enc]
           obj,         \* the certificate-block object under test
           out,         \* the last exported block (snapshot of obj at export time)
@@ -163,6 +169,22 @@ ValueOK(c, got, want, fieldLen) ==
                             /\ \A i \in (Len(want) + 1)..fieldLen : got[i] = 0
      ELSE got = want
 
+\* ------------------------------------------------------------------ devices: the RoT type is a property of the SILICON REVISION
+\* "for all RoT types in the database": the database gives one RoT type per (family, revision); an entry point that takes a family
+\* and a revision must compute the value of THAT revision's type ("latest" = the most recent revision, also the default)
+Seq2Set(s)        == {s[j] : j \in 1..Len(s)}
+HasFam(fam)       == \E i \in 1..Len(Devices) : Devices[i].fam = fam
+Dev(fam)          == Devices[CHOOSE i \in 1..Len(Devices) : Devices[i].fam = fam]
+RevNames(d)       == Seq2Set(d.revs) \cup {"latest"}
+HasDev(fam, rev)  == HasFam(fam) /\ rev \in RevNames(Dev(fam)) /\ Dev(fam).latest \in Seq2Set(Dev(fam).revs)
+RotOfDev(d, rev)  == d.rots[CHOOSE j \in 1..Len(d.revs) : d.revs[j] = (IF rev = "latest" THEN d.latest ELSE rev)]
+RotOf(fam, rev)   == RotOfDev(Dev(fam), rev)
+\* the entry points that are given a device: Rot(family, revision) (value and table), `nxpcrypto rot -f -r`, CMPA(family, revision),
+\* the debug credential configuration (family, revision)
+DevPaths(d)       == {"rot", "rot_table", "cli"} \cup (IF d.pfr THEN {"pfr"} ELSE {}) \cup (IF d.dc THEN {"dc"} ELSE {})
+LegalFor(fam, rev, c) == /\ HasDev(fam, rev) /\ c.rot = RotOf(fam, rev)
+                         /\ Legal(c) /\ c.path \in DevPaths(Dev(fam))
+
 \* ------------------------------------------------------------------ certificate block v2.1 (documented layout)
 CurveId(c) == IF c = "p256" THEN 1 ELSE 2
 Rec21(ks, used, ca) == Cat(<<Named("rkr.flags", Lit(<<N(ks) * 16 + CurveId(ks[1].cls), used - 1, 0, CaByte(ca)>>)),
@@ -204,6 +226,11 @@ Init == /\ fs = [f \in Files |-> NoFile] /\ obj = NoObj /\ out = NoObj /\ act = 
 Compute(c) == /\ Legal(c)
               /\ act' = [a |-> "Compute", c |-> c, term |-> DocCase(c)]
               /\ UNCHANGED <<fs, obj, out>>
+\* the same computation through an entry point that is told the device: the RoT type is not the caller's choice, it is the one
+\* the requested revision has; the expected value is the documented construction of THAT type over the key list
+ComputeFor(fam, rev, c) == /\ LegalFor(fam, rev, c)
+                           /\ act' = [a |-> "ComputeFor", fam |-> fam, rev |-> rev, c |-> c, term |-> DocCase(c)]
+                           /\ UNCHANGED <<fs, obj, out>>
 WriteFile(f, k, e) == /\ e \in PathEncs
                       /\ fs' = [fs EXCEPT ![f] = [has |-> TRUE, k |-> k, enc |-> e]]
                       /\ act' = [a |-> "WriteFile", f |-> f, k |-> k, enc |-> e]
@@ -286,4 +313,7 @@ ParsedIsBuilt == act.a \in {"Parse21", "Parse1"} =>
                    /\ obj.img = out.img /\ obj.build = out.build /\ obj.isk = out.isk
 \* reading by path sees the file content of the moment
 ReadIsCurrent == act.a = "ReadByPath" => act.term = DocCase(FileCase(act.rot, act.files, act.path, act.used))
+\* a device computation yields the construction of the RoT type of the REQUESTED revision (not of another revision of the family)
+RevisionDecides == act.a = "ComputeFor" => /\ act.c.rot = RotOf(act.fam, act.rev)
+                                           /\ act.term = DocCase([act.c EXCEPT !.rot = RotOf(act.fam, act.rev)])
 =============================================================================
